@@ -216,4 +216,15 @@ var targets = []Target{
 		Mode:   "abs",
 		Funcs:  []string{"seekIntHash"},
 	},
+	{
+		// C06 / C01: the fixed-size fast paths of SkipGo (count x width handed to skipn)
+		Module: "Gen_thriftskipfast",
+		Dir:    "thrift",
+		Mode:   "abs",
+		Tables: []string{"typeSize"},
+		Blocks: []Block{
+			{Func: "BinaryProtocol.SkipGo", Name: "SkipGo_list_fast", Anchor: "typeSize[vt] > 0"},
+			{Func: "BinaryProtocol.SkipGo", Name: "SkipGo_map_fast", Anchor: "ksz > 0 && vsz > 0"},
+		},
+	},
 }
